@@ -11,7 +11,7 @@ for sid in sorted(os.listdir('/verif/seeded')):
         rows.append((sid,prop,'patch does not apply',[])); continue
     import tempfile,shutil
     T=tempfile.mkdtemp(prefix='lhv-seedtab.',dir='/tmp')
-    shutil.copy('/verif/known_findings.json',T); shutil.copy('/verif/properties.jsonl',T); shutil.copytree('/verif/contracts',T+'/contracts')
+    shutil.copy('/verif/known_findings.json',T); shutil.copy('/verif/properties.jsonl',T); shutil.copytree('/verif/contracts',T+'/contracts'); shutil.copytree('/verif/bounded',T+'/bounded')
     try:
         out=subprocess.run(['./bin/lhv','check','--verif',T,'--property',prop],cwd='/verif',capture_output=True,text=True).stdout
     finally:
